@@ -185,8 +185,9 @@ pub fn run(run: &Run) {
         let strings: Vec<(String, &V)> = vals
             .par_iter()
             .filter_map(|v| {
-                let n = v.build();
-                Some((f.e.format_narsese(&n), v))
+                // a value the constructors refuse (or the formatter cannot print) yields no string
+                let v2 = v.clone();
+                crate::report::quiet_catch(std::panic::AssertUnwindSafe(move || f.e.format_narsese(&v2.build()))).ok().map(|s| (s, v))
             })
             .collect();
         let distinct: std::collections::HashSet<&str> = strings.iter().map(|(s, _)| s.as_str()).collect();
